@@ -396,6 +396,24 @@ def run(index, rep, tier):
                 bad_lab = "f" if neg else "t"
             rep.check(ok and bool(guards), "R14.4", tm.qualname, "refresh polarity in Tree.mrca", fn_where(tm, n.stmt), "Tree.mrca re-encodes when is_bipartitions_updated is falsy",
                       "Tree.mrca does not re-encode the bipartitions when the caller passes is_bipartitions_updated=False (the refresh the property allows the caller to request): the descent then follows stale leafset bitmasks after a structural edit")
+            # the early `return None` of Tree.mrca tests CONTAINMENT of the requested mask in the start node's leaf set
+        rets = [r for r in walk_no_nested(tm.node) if isinstance(r, ast.Return) and (r.value is None or is_none(r.value))]
+        pmm = parent_map(tm.node)
+        ncont = 0
+        for r in rets:
+            iff = pmm.get(r)
+            if not isinstance(iff, ast.If):
+                continue
+            t = iff.test
+            ands = [b for b in ast.walk(t) if isinstance(b, ast.BinOp) and isinstance(b.op, ast.BitAnd) and "leafset_bitmask" in norm(b)]
+            if not ands:
+                continue
+            ncont += 1
+            cp = compare_parts(t)
+            okc = bool(cp) and cp[1] in ("NotEq", "Eq") and ((isinstance(cp[0], ast.BinOp) and norm(cp[2]) in (norm(cp[0].left), norm(cp[0].right))) or (isinstance(cp[2], ast.BinOp) and norm(cp[0]) in (norm(cp[2].left), norm(cp[2].right))))
+            rep.check(okc, "R14.4", tm.qualname, "`return None` guarded by `%s`" % norm(t)[:60], fn_where(tm, iff), "Tree.mrca gives up only when the requested taxa are not ALL below the start node (intersection compared with the requested mask)",
+                      "Tree.mrca returns None under `%s`: the test must be containment - (start leafset & requested) != requested - ; testing the intersection for emptiness (overlap) lets a taxon set that is only partly below the start node through, and the root / start node is returned as 'common ancestor' of taxa it does not all contain" % norm(t)[:80])
+        rep.floor("R14.4", "containment guards in Tree.mrca", 1, ncont)
         pdq = index.function("dendropy.calculate.treemeasure.patristic_distance")
         mc = [c for c in calls_in(pdq.node) if call_name(c) == "mrca"]
         okf = bool(mc) and all(get_kwarg(c, "is_bipartitions_updated") is not None and norm(get_kwarg(c, "is_bipartitions_updated")) == "is_bipartitions_updated" for c in mc)
